@@ -37,10 +37,7 @@ def run(ctx):
         ctx.case(vlib.fp([tr[0]["scen"], tr[0]["K"]]))
     for tr in traces[:2] + traces[-1:]:
         ctx.sample(tr)
-    CH = 6000
-    for i in range(0, len(traces), CH):
-        vlib.check_traces(ctx, traces[i:i + CH], "p%d" % (i // CH), module="TraceDialPolicy", cfg="TraceDialPolicy.cfg",
-                          specname="DialPolicy.tla")
+    vlib.check_traces_chunks(ctx, traces, 6000, "p", module="TraceDialPolicy", cfg="TraceDialPolicy.cfg", specname="DialPolicy.tla")
     # DoH path: names from DNS (aliases, service targets) must never become the TLS server name
     rc, out = ctx.go_test("^TestDialPolicyDoH$", env={"VH_OUT": ctx.path("doh.ndjson")}, timeout=600)
     obs = vlib.read_ndjson(ctx.path("doh.ndjson"))
